@@ -469,6 +469,9 @@ def run(ctx: Ctx) -> None:
     ctx.rule('R13.2', 'expansion = Cartesian product, each element once, objects built from their own parameters', floor=7)
     ctx.rule('R13.3', 'params <-> __init__ agreement for every code, decoder and noise class; _inputs faithful', floor=27)
     ctx.trust('itertools.product enumerates the Cartesian product')
-    _r131(ctx)
-    _r132(ctx)
-    _r133(ctx)
+    with ctx.part():
+        _r131(ctx)
+    with ctx.part():
+        _r132(ctx)
+    with ctx.part():
+        _r133(ctx)
